@@ -2,10 +2,12 @@ use crate::{
     constants::{D_MESG, MAX_HASH_SIZE, MAX_LMOTS_SIGNATURE_LENGTH, MAX_NUM_WINTERNITZ_CHAINS},
     hasher::HashChain,
     lm_ots::parameters::LmotsAlgorithm,
-    util::{coef::coef, helper::read_and_advance},
+    util::{
+        coef::coef,
+        helper::{try_read_and_advance, try_read_u32_and_advance},
+    },
 };
 
-use core::convert::TryInto;
 use tinyvec::ArrayVec;
 
 #[cfg(feature = "fast_verify")]
@@ -219,18 +221,17 @@ impl<'a, H: HashChain> InMemoryLmotsSignature<'a, H> {
     pub fn new(data: &'a [u8]) -> Option<Self> {
         let mut index = 0;
 
-        let lmots_parameter = LmotsAlgorithm::get_from_type::<H>(u32::from_be_bytes(
-            read_and_advance(data, 4, &mut index).try_into().unwrap(),
-        ))
-        .unwrap();
+        let lmots_parameter =
+            LmotsAlgorithm::get_from_type::<H>(try_read_u32_and_advance(data, &mut index)?)?;
 
-        let signature_randomizer = read_and_advance(data, H::OUTPUT_SIZE as usize, &mut index);
+        let signature_randomizer =
+            try_read_and_advance(data, H::OUTPUT_SIZE as usize, &mut index)?;
 
-        let signature_data = read_and_advance(
+        let signature_data = try_read_and_advance(
             data,
             (H::OUTPUT_SIZE * lmots_parameter.get_num_winternitz_chains()) as usize,
             &mut index,
-        );
+        )?;
 
         Some(Self {
             signature_randomizer,
